@@ -848,7 +848,7 @@ func a4(w *World, r *Report) {
 	okp := len(preps) == 1 && instrDominates(snaps[0], preps[0])
 	if okp {
 		_, a := callRecvArgs(preps[0].Common())
-		okp = len(a) == 6 && sameValue(a[4], snap)
+		okp = len(a) == 6 && (sameValue(a[4], snap) || w.Canon(a[4]) == w.Canon(snap))
 	}
 	r.Check(okp, "A-4", "ExecuteTrx:snapshot-before-prepare", "the snapshot is taken before Prepare syncs the sender/receiver in and its id is handed to Prepare", "Prepare runs before the snapshot or without its id (synced-in accounts would survive a revert)", fnSite(w, fn))
 }
